@@ -4,7 +4,8 @@ patch="$(realpath "$1")"; shift
 cd /repo || exit 2
 if [ -n "$(git status --porcelain)" ]; then echo "/repo not clean"; exit 2; fi
 git apply "$patch" || { echo "patch does not apply"; exit 2; }
-trap 'git -C /repo checkout -- . ; git -C /repo clean -fdq jaxtyping' EXIT
+ev=$(mktemp -d); cp -a /verif/evidence/. "$ev"/   # evidence of the unchanged tree is kept, not the seeded run's
+trap 'git -C /repo checkout -- . ; git -C /repo clean -fdq jaxtyping; cp -a "$ev"/. /verif/evidence/; rm -rf "$ev"' EXIT
 for id in "$@"; do
   (cd /verif && ./check "$id" 2>&1 | grep -E "VIOLATION|KNOWN-FINDING|^C[0-9]+ |Traceback|Error" | head -8)
 done
